@@ -57,6 +57,16 @@ def gen_cases(rng, tier):
         for p_ in spec["params"]:
             if p_.get("value") is not None and p_.get("role") != "horizon":
                 p_["value_as"] = rng.choice(["DM", "numpy", "numpy"])
+        gv_ = [v_ for v_ in spec["variables"] if not v_.get("grid") and v_.get("role") != "horizon" and v_["shape"] == [1, 1]]
+        xs_ = [s_ for s_ in spec["states"] if not s_.get("quad") and s_["shape"][1] == 1]
+        if len(gv_) >= 2 and xs_ and rng.random() < 0.8:
+            # guesses written in terms of other guessed quantities (the order in which they are applied matters)
+            x_ = rng.choice(xs_)
+            guesses = [g_ for g_ in guesses if g_["target"] not in (gv_[0]["name"], gv_[1]["name"], x_["name"])]
+            guesses += [{"target": gv_[0]["name"], "kind": "const", "val": ocpgen.rnd(rng, 0.5, 2), "chain": True},
+                        {"target": gv_[1]["name"], "kind": "expr", "expr": ["+", E.sym(gv_[0]["name"]), ["c", 1.0]], "chain": True},
+                        {"target": x_["name"], "kind": "expr", "chain": True,
+                         "mat": [[["*", E.sym(gv_[1]["name"]), ["+", ["t"], ["c", 0.5 + i_]]]] for i_ in range(x_["shape"][0])]}]
         spec["initial"] = guesses
         phase = rng.choice(["before", "after_transcription", "after_solve", "after_edit"])
         if spec["method"]["cls"] in ("MS", "SS") and spec["method"].get("intg") not in ("rk", "expl_euler") \
@@ -83,7 +93,12 @@ def gen_cases(rng, tier):
         updates = []
         if phase != "before" and rng.random() < 0.6:
             for _ in range(rng.randint(1, 2)):
-                if spec["params"] and rng.random() < 0.6:
+                from .c09 import concat_event
+                ce_ = concat_event(rng, spec, spec["method"]["N"]) if rng.random() < 0.3 else None
+                if ce_:
+                    # one set_value for a concatenation of parameters
+                    updates.append(dict(ce_, op="set_value_cat", name="+".join(ce_["names"])))
+                elif spec["params"] and rng.random() < 0.6:
                     p = rng.choice(spec["params"])
                     from .c09 import rand_value
                     updates.append({"op": "set_value", "name": p["name"], "value": rand_value(rng, p, spec["method"]["N"]),
@@ -103,6 +118,12 @@ def gen_cases(rng, tier):
                 elif spec["controls"]:
                     u = rng.choice(spec["controls"])
                     resave.append({"op": "set_initial", "name": u["name"], "value": ocpgen.rnd(rng, -2, 2)})
+        if any(g_.get("chain") for g_ in spec["initial"]) and (
+                phase in ("after_solve", "after_edit") or updates or any(u_["op"] == "set_initial" for u_ in resave)):
+            # a chain of guesses is only defined by the passes rockit makes over it: every set_initial, and every
+            # set_value that refreshes guesses, on the transcribed OCP makes another pass on the live instance; kept to
+            # histories where the original and the loaded OCP see the same number of passes
+            spec["initial"] = [g_ for g_ in spec["initial"] if not g_.get("chain")]
         cases.append({"spec": spec, "phase": phase, "updates": updates, "seed": rng.getrandbits(32), "edit": edit,
                       "resave": resave,
                       "solve_loaded": rng.random() < 0.5})
@@ -271,7 +292,10 @@ def run_case(case):
                 sol = b.ocp.non_converged_solution
             stats0 = sol.stats
         for u in case["updates"]:
-            if u["op"] == "set_value":
+            if u["op"] == "set_value_cat":
+                from .c09 import do_set_value
+                C.call("set_value(concatenation, transcribed)", do_set_value, b, u)
+            elif u["op"] == "set_value":
                 C.call("set_value(transcribed)", b.stage.set_value, b.syms[u["name"]], build.param_value(u))
             else:
                 C.call("set_initial(transcribed)", b.stage.set_initial, b.syms[u["name"]], u["value"])
@@ -297,7 +321,10 @@ def run_case(case):
             # reference: the same declarations made afresh on an OCP that is never saved
             b_ref = build.build_ocp(spec)
             for u in list(case["updates"]) + list(case.get("resave") or []):
-                if u["op"] == "set_value":
+                if u["op"] == "set_value_cat":
+                    from .c09 import do_set_value
+                    do_set_value(b_ref, u)
+                elif u["op"] == "set_value":
                     b_ref.stage.set_value(b_ref.syms[u["name"]], build.param_value(u))
                 else:
                     b_ref.stage.set_initial(b_ref.syms[u["name"]], u["value"])
